@@ -13,155 +13,20 @@
    the file length): an address outside the file is [Err], never a guess.  Executable, proof-free; lemmas in
    Proofs/Walk.v, theorems in Props/C05Walk.v.
 
-   NOT covered (the walker answers [Err], the tie counts such files as "not covered"): fractal heaps with an indirect
-   root block, v2 B-trees of depth > 0, new-style (Link Info) groups, filtered chunk contents (deflate is not
-   modelled: the chunk extent is recorded, its decoded size is not checked), global heap collections. *)
+   Also followed (added for the reference corpus, C06, and for the files with new-style groups the library writes, C05):
+     new-style groups (compact link messages; dense: fractal heap direct root block + v2 B-tree type 5 leaf), also in the writer's
+     private layout of the stored link (four cross-structure deviation tags X_group_dataspace_msg .. X_refcount_ignores_dense_links),
+     data layout message versions 1 / 2 (Spec/FormatRef.v) and 4 (single chunk and implicit chunk index), shared datatype messages
+     and attributes with a shared datatype (resolved to the committed datatype's object header; every use counts in its reference
+     count), committed datatypes, the superblock extension.
+   NOT covered (the walker answers [Err] with a reason code, tools/props/c06walk.py REASONS; the ties count such files): fractal
+   heaps with an indirect root block, v2 B-trees of depth > 0, version 4 chunk indexes other than single chunk / implicit (fixed
+   array 48, extensible array 49, v2 B-tree 50), virtual datasets (51), messages in the shared message heap, driver information,
+   filtered chunk contents (deflate is not modelled: the chunk extent is recorded, its decoded size is not checked), global heap
+   collections.  Every structural clause has its own reason code (60 ..). *)
 From HV Require Import Base.Prelude Base.Outcome Base.Bytes Spec.Parse Spec.Format Spec.FormatMsg Spec.FormatNode
   Spec.FormatRef Model.Wellformed.
-
-(* ------------------------------------------------------------------ kinds of extents (tools/props/c05walk.py KINDS) *)
-Definition K_superblock : N := 1.    Definition K_ohdr1 : N := 2.        Definition K_ohdr1_cont : N := 3.
-Definition K_ohdr2 : N := 4.         Definition K_ohdr2_cont : N := 5.   Definition K_lheap_hdr : N := 6.
-Definition K_lheap_data : N := 7.    Definition K_btree1_group : N := 8. Definition K_snod : N := 9.
-Definition K_btree1_chunk : N := 10. Definition K_chunk : N := 11.       Definition K_contiguous : N := 12.
-Definition K_fheap_hdr : N := 13.    Definition K_fheap_dblock : N := 14. Definition K_btree2_hdr : N := 15.
-Definition K_btree2_leaf : N := 16.  Definition K_gcol : N := 17.
-
-(* ------------------------------------------------------------------ deviation tags of the walk *)
-Inductive xtag : Type :=
-| X_sb_eof_stale            (* a visited structure ends beyond the superblock's end-of-file address *)
-| X_refcount_too_high | X_refcount_too_low     (* object reference count vs hard links found *)
-| X_snod_unsorted           (* symbol table node entries not in increasing name order *)
-| X_btree1_group_keys       (* group B-tree keys do not bound the names of the child *)
-| X_btree1_node_truncated   (* the node's full 2K-entry region leaves the file or overlaps another structure *)
-| X_snod_node_truncated
-| X_fheap_offset_excludes_block_prefix   (* heap ID offsets count from the object data of the direct block *)
-| X_btree2_attr_type_5      (* attribute name index of B-tree type 5 *)
-| X_vlen_elem_no_length.
-Inductive wtag : Type := WS (t : tag) | WX (x : xtag).
-Definition xtag_code (x : xtag) : N :=
-  match x with
-  | X_sb_eof_stale => 101 | X_refcount_too_high => 102 | X_refcount_too_low => 103 | X_snod_unsorted => 104
-  | X_btree1_group_keys => 105 | X_btree1_node_truncated => 106 | X_snod_node_truncated => 107
-  | X_fheap_offset_excludes_block_prefix => 108 | X_btree2_attr_type_5 => 109 | X_vlen_elem_no_length => 110
-  end.
-Definition wtag_code (t : wtag) : N := match t with WS t => tag_code t | WX x => xtag_code x end.
-Definition wtolerance := wtag -> bool.
-Definition wstrict : wtolerance := fun _ => false.
-Definition wtolerant : wtolerance := fun _ => true.
-
-(* ------------------------------------------------------------------ result *)
-(* kind: 1 group, 2 dataset, 3 link object, 4 committed datatype;  layout: 0 compact, 1 contiguous, 2 chunked (datasets);
-   os_dtbits: byte order / signedness / string padding as in the class bit field ([dtype_bits]);
-   os_space: dataspace type 0 scalar, 1 simple, 2 null;  os_links: (link type 0 hard / 1 soft / 64 external, link name) of a group *)
-Record obj_sum := { os_addr : N; os_path : bytes; os_kind : N; os_dims : list N; os_dtclass : N; os_dtsize : N;
-                    os_layout : N; os_attrs : list bytes; os_dtbits : N; os_space : N; os_links : list (N * bytes) }.
-Definition xext : Type := (N * N * N)%type.      (* start, end, kind *)
-Record walk_result := { wr_extents : list xext; wr_tree : list obj_sum; wr_tags : list wtag; wr_eof : N; wr_version : N }.
-
-Record wstate := { ws_ext : list xext; ws_soft : list (xext * xtag); ws_tags : list wtag; ws_sum : list obj_sum;
-                   ws_seen : list N; ws_links : list N; ws_refs : list (N * N); ws_stab : list (N * (N * N)) }.
-Definition st0 : wstate := {| ws_ext := []; ws_soft := []; ws_tags := []; ws_sum := []; ws_seen := []; ws_links := [];
-                              ws_refs := []; ws_stab := [] |}.
-Definition set_ext (v : list xext) (s : wstate) : wstate :=
-  {| ws_ext := v; ws_soft := ws_soft s; ws_tags := ws_tags s; ws_sum := ws_sum s; ws_seen := ws_seen s;
-     ws_links := ws_links s; ws_refs := ws_refs s; ws_stab := ws_stab s |}.
-(* everything but the extents *)
-Record wrest := { r_soft : list (xext * xtag); r_tags : list wtag; r_sum : list obj_sum; r_seen : list N; r_links : list N;
-                  r_refs : list (N * N); r_stab : list (N * (N * N)) }.
-Definition rest_of (s : wstate) : wrest :=
-  {| r_soft := ws_soft s; r_tags := ws_tags s; r_sum := ws_sum s; r_seen := ws_seen s; r_links := ws_links s;
-     r_refs := ws_refs s; r_stab := ws_stab s |}.
-Definition with_rest (r : wrest) (s : wstate) : wstate :=
-  {| ws_ext := ws_ext s; ws_soft := r_soft r; ws_tags := r_tags r; ws_sum := r_sum r; ws_seen := r_seen r;
-     ws_links := r_links r; ws_refs := r_refs r; ws_stab := r_stab r |}.
-
-(* ------------------------------------------------------------------ the walk monad: state + Ok/Err (a [Panic] of a
-   decoder is turned into [Err] where it enters: a specification walker rejects, it never panics) *)
-(* a rejection carries a reason code (tools/props/c06walk.py REASONS): 1 a structural clause failed, 2 a decoder rejected or a
-   read left the file, 3 an extent is empty or leaves the file, 10.. named clauses, 200 + tag: a deviation that is not tolerated,
-   1000 + t: message type t is not interpreted *)
-Inductive wres (A : Type) : Type := WOk (a : A) | WErr (code : N).
-Arguments WOk {A} a.
-Arguments WErr {A} code.
-Definition W (A : Type) := wstate -> wres (A * wstate).
-Definition wret {A} (a : A) : W A := fun st => WOk (a, st).
-Definition wfail {A} (code : N) : W A := fun _ => WErr code.
-Definition wbind {A B} (m : W A) (k : A -> W B) : W B :=
-  fun st => match m st with WOk (a, st') => k a st' | WErr c => WErr c end.
-Definition wlc {A} (code : N) (o : outcome A) : W A := fun st => match o with Ok a => WOk (a, st) | _ => WErr code end.
-Definition wguardc (code : N) (c : bool) : W unit := if c then wret tt else wfail code.
-Notation werr := (wfail 1).
-Notation wl := (wlc 2).
-Notation wguard := (wguardc 1).
-(* read / update everything but the extents *)
-Definition wget {A} (g : wrest -> A) : W A := fun st => WOk (g (rest_of st), st).
-Definition wupd (g : wrest -> wrest) : W unit := fun st => WOk (tt, with_rest (g (rest_of st)) st).
-(* read the extents (the final cross-structure clauses) *)
-Definition wexts : W (list xext) := fun st => WOk (ws_ext st, st).
-
-Notation "x <<- e ;; k" := (wbind e (fun x => k)) (at level 61, e at next level, right associativity).
-Notation "' p <<- e ;; k" := (wbind e (fun x => let p := x in k)) (at level 61, p pattern, e at next level, right associativity).
-
-Fixpoint wmapM {A B} (g : A -> W B) (l : list A) : W (list B) :=
-  match l with
-  | [] => wret []
-  | x :: r => y <<- g x;; ys <<- wmapM g r;; wret (y :: ys)
-  end.
-Fixpoint wforM {A} (g : A -> W unit) (l : list A) : W unit :=
-  match l with
-  | [] => wret tt
-  | x :: r => _ <<- g x;; wforM g r
-  end.
-Fixpoint omapM {A B} (g : A -> outcome B) (l : list A) : outcome (list B) :=
-  match l with
-  | [] => Ok []
-  | x :: r => y <- g x;; ys <- omapM g r;; Ok (y :: ys)
-  end.
-
-(* ------------------------------------------------------------------ small helpers *)
-Fixpoint bytes_ltb (a b : list N) : bool :=
-  match a, b with
-  | _, [] => false
-  | [], _ :: _ => true
-  | x :: a', y :: b' => (x <? y) || ((x =? y) && bytes_ltb a' b')
-  end.
-Definition bytes_leb (a b : list N) : bool := negb (bytes_ltb b a).
-Fixpoint increasing (l : list (list N)) : bool :=
-  match l with
-  | a :: r => match r with b :: _ => bytes_ltb a b && increasing r | [] => true end
-  | [] => true
-  end.
-Fixpoint nondecreasingN (l : list N) : bool :=
-  match l with
-  | a :: r => match r with b :: _ => (a <=? b) && nondecreasingN r | [] => true end
-  | [] => true
-  end.
-Fixpoint nodupb (l : list bytes) : bool :=
-  match l with [] => true | x :: r => negb (existsb (bytes_eqb x) r) && nodupb r end.
-Definition countN (a : N) (l : list N) : N := N.of_nat (length (filter (N.eqb a) l)).
-Definition memN (a : N) (l : list N) : bool := existsb (N.eqb a) l.
-Definition sumN (l : list N) : N := fold_left N.add l 0.
-Definition prodN (l : list N) : N := fold_left N.mul l 1.
-Definition lastN (l : list N) : N := last l 0.
-Definition lenN {A} (l : list A) : N := N.of_nat (length l).
-(* minimum number of bytes that hold the value v *)
-Definition nbytes_for (v : N) : N := if v =? 0 then 1 else N.log2 v / 8 + 1.
-Definition slash : N := 47.
-Definition join_path (path name : bytes) : bytes := (if bytes_eqb path [slash] then [] else path) ++ slash :: name.
-
-Definition msgs_of (t : N) (ms : list msg_spec) : list msg_spec := filter (fun m => ms_type m =? t) ms.
-Definition first_of (t : N) (ms : list msg_spec) : option bytes :=
-  match msgs_of t ms with m :: _ => Some (ms_data m) | [] => None end.
-Definition has_msg (t : N) (ms : list msg_spec) : bool := match msgs_of t ms with [] => false | _ => true end.
-(* the message types the walker interprets or may skip (h5spec.py `known`) *)
-(* 7 external data files, 13 object comment, 14 old modification time: skipped *)
-Definition known_types : list N := [1; 2; 3; 4; 5; 6; 7; 8; 10; 11; 12; 13; 14; 15; 17; 18; 21; 22].
-Definition once_types : list N := [1; 3; 5; 8; 11; 17; 21; 15; 22; 2].
-
-Record wctx := { cO : nat; cL : nat; c_leafK : N; c_intK : N; c_istoreK : N }.
-Record gentry := { ge_e : sym_entry; ge_name : bytes }.
-Definition chunk_rec : Type := (N * N * list N * N)%type.      (* size, filter mask, offsets, address *)
+From HV Require Export Spec.WalkBase.
 
 Section Walk.
 Variable f : bytes.           (* the file *)
@@ -180,26 +45,29 @@ Definition add_ext (s e k : N) : W unit :=
   fun st => if (s <? e) && (e <=? flen) then WOk (tt, set_ext ((s, e, k) :: ws_ext st) st) else WErr 3.
 Definition add_soft (s e k : N) (x : xtag) : W unit :=
   wupd (fun r => {| r_soft := ((s, e, k), x) :: r_soft r; r_tags := r_tags r; r_sum := r_sum r; r_seen := r_seen r;
-                    r_links := r_links r; r_refs := r_refs r; r_stab := r_stab r |}).
+                    r_links := r_links r; r_refs := r_refs r; r_stab := r_stab r; r_dlinks := r_dlinks r |}).
 Definition add_wtags (l : list wtag) : W unit :=
   wupd (fun r => {| r_soft := r_soft r; r_tags := l ++ r_tags r; r_sum := r_sum r; r_seen := r_seen r;
-                    r_links := r_links r; r_refs := r_refs r; r_stab := r_stab r |}).
+                    r_links := r_links r; r_refs := r_refs r; r_stab := r_stab r; r_dlinks := r_dlinks r |}).
 Definition add_stags (l : list tag) : W unit := add_wtags (map WS l).
 Definition add_sum (o : obj_sum) : W unit :=
   wupd (fun r => {| r_soft := r_soft r; r_tags := r_tags r; r_sum := o :: r_sum r; r_seen := r_seen r;
-                    r_links := r_links r; r_refs := r_refs r; r_stab := r_stab r |}).
+                    r_links := r_links r; r_refs := r_refs r; r_stab := r_stab r; r_dlinks := r_dlinks r |}).
 Definition mark_seen (a : N) : W unit :=
   wupd (fun r => {| r_soft := r_soft r; r_tags := r_tags r; r_sum := r_sum r; r_seen := a :: r_seen r;
-                    r_links := r_links r; r_refs := r_refs r; r_stab := r_stab r |}).
+                    r_links := r_links r; r_refs := r_refs r; r_stab := r_stab r; r_dlinks := r_dlinks r |}).
 Definition add_link (a : N) : W unit :=
   wupd (fun r => {| r_soft := r_soft r; r_tags := r_tags r; r_sum := r_sum r; r_seen := r_seen r;
-                    r_links := a :: r_links r; r_refs := r_refs r; r_stab := r_stab r |}).
+                    r_links := a :: r_links r; r_refs := r_refs r; r_stab := r_stab r; r_dlinks := r_dlinks r |}).
 Definition add_ref (a rc : N) : W unit :=
   wupd (fun r => {| r_soft := r_soft r; r_tags := r_tags r; r_sum := r_sum r; r_seen := r_seen r;
-                    r_links := r_links r; r_refs := (a, rc) :: r_refs r; r_stab := r_stab r |}).
+                    r_links := r_links r; r_refs := (a, rc) :: r_refs r; r_stab := r_stab r; r_dlinks := r_dlinks r |}).
 Definition add_stab (a bt hp : N) : W unit :=
   wupd (fun r => {| r_soft := r_soft r; r_tags := r_tags r; r_sum := r_sum r; r_seen := r_seen r;
-                    r_links := r_links r; r_refs := r_refs r; r_stab := (a, (bt, hp)) :: r_stab r |}).
+                    r_links := r_links r; r_refs := r_refs r; r_stab := (a, (bt, hp)) :: r_stab r; r_dlinks := r_dlinks r |}).
+Definition add_dlink (a : N) : W unit :=
+  wupd (fun r => {| r_soft := r_soft r; r_tags := r_tags r; r_sum := r_sum r; r_seen := r_seen r;
+                    r_links := r_links r; r_refs := r_refs r; r_stab := r_stab r; r_dlinks := a :: r_dlinks r |}).
 (* deviations: allowed only when the tolerance says so, and then reported *)
 Definition sdev (t : tag) : W unit := if tol (WS t) then add_wtags [WS t] else wfail (200 + tag_code t).
 Definition xdev (x : xtag) : W unit := if tol (WX x) then add_wtags [WX x] else wfail (200 + xtag_code x).
@@ -277,8 +145,8 @@ Definition ohdr_walk (fuel : nat) (addr : N) : W (N * option N * list msg_spec) 
         _ <<- add_ext addr (addr + (blen bs - blen r)) K_ohdr2;;
         _ <<- add_stags tg;;
         ms <<- cont2 (N.testbit fl 2) fuel (o2_msgs h);;
-        (* shared messages are not implemented *)
-        _ <<- wguardc 14 (forallb (fun m => negb (N.testbit (ms_flags m) 1)) ms);;
+        (* shared messages: only a datatype message that refers to a committed datatype is followed *)
+        _ <<- wguardc 14 (forallb (fun m => negb (N.testbit (ms_flags m) 1) || (ms_type m =? 3)) ms);;
         wret (2, None, filter (fun m => negb (is_cont m) && negb (ms_type m =? 0)) ms)
     | _ => wfail 12
     end
@@ -294,6 +162,34 @@ Definition ohdr_walk (fuel : nat) (addr : N) : W (N * option N * list msg_spec) 
     | _ => wfail 13
     end.
 
+(* ------------------------------------------------------------------ shared (committed) datatypes *)
+(* a datatype message; when it is shared (message flag bit 1) its body names the committed datatype: the object header at that
+   address is decoded (on a scratch state: the committed datatype is visited as an object of its own where a link leads to it) and
+   its datatype message is the datatype.  [resolve_fuel] bounds the continuation chain of that header. *)
+Definition resolve_fuel : nat := 8.
+Definition committed_dtype (a : N) : outcome (dtype * list tag) :=
+  match ohdr_walk resolve_fuel a st0 with
+  | WOk ((ver, _, ms), _) =>
+      match msgs_of 3 ms with
+      | m :: _ => if N.testbit (ms_flags m) 1 then Err else spec_dec_datatype stol (ver =? 1) (ms_data m)
+      | [] => Err
+      end
+  | WErr _ => Err
+  end.
+Definition shared_dtype (pad : bool) (body : bytes) : outcome (dtype * list tag) :=
+  a <- spec_dec_shared (cO c) (cL c) pad body;; committed_dtype a.
+Definition dtype_of_msgs (pad : bool) (ms : list msg_spec) : option (outcome (dtype * list tag)) :=
+  match msgs_of 3 ms with
+  | m :: _ => Some (if N.testbit (ms_flags m) 1 then shared_dtype pad (ms_data m) else spec_dec_datatype stol pad (ms_data m))
+  | [] => None
+  end.
+(* an attribute message; a shared datatype (attribute flag bit 0, versions 2 and 3) is resolved like a shared datatype message *)
+Definition dec_attribute (pad : bool) (d : bytes) : outcome (attribute_spec * list tag) :=
+  match d with
+  | _ :: 1 :: _ => spec_dec_attribute_sh stol (cL c) pad (shared_dtype false) d       (* flags = 1: shared datatype *)
+  | _ => spec_dec_attribute stol (cL c) pad d
+  end.
+
 (* ------------------------------------------------------------------ local heap, group B-tree, symbol table nodes *)
 Definition heap_str (seg : bytes) (off : N) : outcome bytes :=
   if off <? blen seg then '(s, _) <- p_cstr (skipn (N.to_nat off) seg);; Ok s else Err.
@@ -307,7 +203,7 @@ Definition local_heap (addr : N) : W bytes :=
       _ <<- add_ext addr (addr + hsz) K_lheap_hdr;;
       _ <<- add_ext (lh_addr h) (lh_addr h + lh_size h) K_lheap_data;;
       seg <<- wl (rd (lh_addr h) (lh_size h));;
-      _ <<- wguard (lheap_free_ok (S (length seg)) (cL c) seg (lh_free h));;
+      _ <<- wguardc 60 (lheap_free_ok (S (length seg)) (cL c) seg (lh_free h));;
       wret seg
   | _ => wfail 17
   end.
@@ -340,8 +236,8 @@ Definition btree1_node (ntype : N) (nd : nat) (K : N) (kind : N) (addr : N) (top
       _ <<- add_ext addr (addr + used) kind;;
       _ <<- add_stags tg;;
       _ <<- (if n <=? 2 * K then add_soft addr (addr + full) kind X_btree1_node_truncated else wret tt);;
-      _ <<- wguard (if top then (b1_left b =? undefO) && (b1_right b =? undefO) else true);;
-      _ <<- wguard (match level with Some l => b1_level b =? l | None => true end);;
+      _ <<- wguardc 61 (if top then (b1_left b =? undefO) && (b1_right b =? undefO) else true);;
+      _ <<- wguardc 62 (match level with Some l => b1_level b =? l | None => true end);;
       wret b
   | _ => wfail 19
   end.
@@ -364,7 +260,7 @@ Fixpoint gbtree (seg : bytes) (fuel : nat) : N -> bool -> option N -> W (list ge
 Definition cbtree_body (nd : nat) (rec : N -> bool -> option N -> W (list chunk_rec)) (addr : N) (top : bool) (level : option N)
   : W (list chunk_rec) :=
   b <<- btree1_node 1 nd (c_istoreK c) K_btree1_chunk addr top level;;
-  _ <<- wguard (increasing (map (skipn 2) (b1_keys b)));;
+  _ <<- wguardc 63 (increasing (map (skipn 2) (b1_keys b)));;
   if 0 <? b1_level b then
     r <<- wmapM (fun child => rec child false (Some (b1_level b - 1))) (b1_children b);;
     wret (concat r)
@@ -395,13 +291,13 @@ Definition fheap_walk (addr : N) : W (fheap_spec * list block_rec) :=
       _ <<- wguardc 23 ((fh_hugebt h =? 0) || (fh_hugebt h =? undefO));;
       let offsz := (fh_maxheap h + 7) / 8 in
       let lensz := nbytes_for (N.min (fh_maxdirect h) (fh_maxobj h)) in
-      _ <<- wguard (1 + offsz + lensz <=? fh_idlen h);;
-      blocks <<- (if fh_root h =? undefO then _ <<- wguard (fh_nman h =? 0);; wret []
+      _ <<- wguardc 64 (1 + offsz + lensz <=? fh_idlen h);;
+      blocks <<- (if fh_root h =? undefO then _ <<- wguardc 65 (fh_nman h =? 0);; wret []
                   else if fh_currows h =? 0 then
                     pre <<- dblock h addr offsz (fh_root h) 0 (fh_start h);;
                     wret [(0, fh_start h, fh_root h, pre)]
                   else wfail 24);;
-      _ <<- wguard (fh_manalloc h =? sumN (map (fun b : block_rec => snd (fst (fst b))) blocks));;
+      _ <<- wguardc 66 (fh_manalloc h =? sumN (map (fun b : block_rec => snd (fst (fst b))) blocks));;
       wret (h, blocks)
   | _ => wfail 26
   end.
@@ -445,7 +341,7 @@ Definition dense_mode (h : fheap_spec) (blocks : list block_rec) (recs : list (N
   : outcome (list (bytes * list tag)) :=
   omapM (fun r : N * bytes =>
            obj <- heap_object h blocks (snd r) lib;;
-           '(a, tg) <- spec_dec_attribute stol (cL c) false obj;;
+           '(a, tg) <- dec_attribute false obj;;
            _ <- guard (spec_checksum (as_name a) =? fst r);;
            Ok (as_name a, tg)) recs.
 
@@ -466,15 +362,15 @@ Definition dense_attrs (d : bytes) : W (list bytes) :=
             | None => wret tt
             end;;
       recs <<- (if b2_type bt =? 8 then
-                  _ <<- wguard (b2_recsize bt =? fh_idlen h + 9);;
+                  _ <<- wguardc 67 (b2_recsize bt =? fh_idlen h + 9);;
                   wret (map (fun r => (unle (skipn (length r - 4) r), firstn (N.to_nat (fh_idlen h)) r)) raw)
                 else if b2_type bt =? 5 then
                   _ <<- xdev X_btree2_attr_type_5;;
-                  _ <<- wguard (b2_recsize bt =? 11);;
+                  _ <<- wguardc 68 (b2_recsize bt =? 11);;
                   wret (map (fun r => (unle (firstn 4 r), firstn 7 (skipn 4 r))) raw)
-                else werr);;
-      _ <<- wguard (lenN recs =? fh_nman h);;
-      _ <<- wguard (nondecreasingN (map fst recs));;
+                else wfail 69);;
+      _ <<- wguardc 70 (lenN recs =? fh_nman h);;
+      _ <<- wguardc 71 (nondecreasingN (map fst recs));;
       match dense_mode h blocks recs false with
       | Ok l => _ <<- add_stags (concat (map snd l));; wret (map fst l)
       | _ =>
@@ -488,48 +384,111 @@ Definition dense_attrs (d : bytes) : W (list bytes) :=
 (* ------------------------------------------------------------------ new-style groups: the link info message -> densely stored links
    (fractal heap of link messages, name index: v2 B-tree type 5 with records hash of the name (4) | heap ID (7); creation order
    index: type 6) *)
-Definition dense_links (pad : bool) (d : bytes) : W (list link_spec) :=
+(* the writer's private layout of a densely stored link (listed deviation X_dense_link_private_layout):
+   version (1) | link type (0) | flags (4) | character set | length of the name in its minimal number of bytes | name | address (O) *)
+Definition dec_link_private (obj : bytes) : outcome link_spec :=
+  '(ver, r) <- p_byte obj;; _ <- guard (ver =? 1);;
+  '(lt, r) <- p_byte r;; _ <- guard (lt =? 0);;
+  '(fl, r) <- p_byte r;; _ <- guard (fl =? 4);;
+  '(cs, r) <- p_byte r;; _ <- guard (cs <? 2);;
+  let w := if blen r <? 1 + 256 + nO then 1%nat else 2%nat in
+  '(nl, r) <- p_u w r;;
+  _ <- guard ((0 <? nl) && (N.of_nat w =? nbytes_for nl));;
+  '(name, r) <- p_take (N.to_nat nl) r;;
+  '(a, r) <- p_u (cO c) r;;
+  _ <- p_end false r;;
+  Ok {| ls_flags := 0; ls_corder := None; ls_cset := cs; ls_name := name; ls_value := LHard a |}.
+
+(* the records of the name index resolved to links; [lib]: heap ID offsets in the library's convention, [priv]: the private layout *)
+Definition link_mode (h : fheap_spec) (blocks : list block_rec) (recs : list (N * bytes)) (lib priv : bool)
+  : outcome (list (link_spec * list tag)) :=
+  omapM (fun r : N * bytes =>
+           obj <- heap_object h blocks (snd r) lib;;
+           '(l, tg) <- (if priv then l <- dec_link_private obj;; Ok (l, []) else spec_dec_link stol (cO c) false obj);;
+           _ <- guard (spec_checksum (ls_name l) =? fst r);;
+           Ok (l, tg)) recs.
+
+(* -> (the links, true when they are stored in the private layout) *)
+Definition dense_links (pad : bool) (d : bytes) : W (list link_spec * bool) :=
   li <<- wlc 40 (spec_dec_linkinfo (cO c) pad d);;
-  if lis_heap li =? undefO then _ <<- wguard (lis_btname li =? undefO);; wret []
+  if lis_heap li =? undefO then _ <<- wguardc 72 (lis_btname li =? undefO);; wret ([], false)
   else
     '(h, blocks) <<- fheap_walk (lis_heap li);;
     '(bt, raw) <<- btree2_walk (lis_btname li);;
-    _ <<- wguard ((b2_type bt =? 5) && (b2_recsize bt =? 11) && (fh_idlen h =? 7));;
+    _ <<- wguardc 73 ((b2_type bt =? 5) && (b2_recsize bt =? 11));;
+    _ <<- (if fh_idlen h =? 7 then wret tt else _ <<- wguardc 74 (fh_idlen h =? 8);; xdev X_btree2_link_id_truncated);;
     _ <<- match lis_btorder li with
           | Some bo => if bo =? undefO then wret tt
                        else '(bt6, raw6) <<- btree2_walk bo;; wguardc 22 ((b2_type bt6 =? 6) && (lenN raw6 =? lenN raw))
           | None => wret tt
           end;;
     let recs := map (fun r => (unle (firstn 4 r), firstn 7 (skipn 4 r))) raw in
-    _ <<- wguard (lenN recs =? fh_nman h);;
-    _ <<- wguard (nondecreasingN (map fst recs));;
-    match omapM (fun r : N * bytes =>
-                   obj <- heap_object h blocks (snd r) false;;
-                   '(l, tg) <- spec_dec_link stol (cO c) false obj;;
-                   _ <- guard (spec_checksum (ls_name l) =? fst r);;
-                   Ok (l, tg)) recs with
-    | Ok l => _ <<- add_stags (concat (map snd l));; wret (map fst l)
-    | _ => wfail 28
+    _ <<- wguardc 75 (lenN recs =? fh_nman h);;
+    _ <<- wguardc 76 (nondecreasingN (map fst recs));;
+    match link_mode h blocks recs false false with
+    | Ok l => _ <<- add_stags (concat (map snd l));; wret (map fst l, false)
+    | _ =>
+      match link_mode h blocks recs true false with
+      | Ok l => _ <<- xdev X_fheap_offset_excludes_block_prefix;; _ <<- add_stags (concat (map snd l));; wret (map fst l, false)
+      | _ =>
+        match link_mode h blocks recs false true with
+        | Ok l => _ <<- xdev X_dense_link_private_layout;; wret (map fst l, true)
+        | _ =>
+          match link_mode h blocks recs true true with
+          | Ok l => _ <<- xdev X_fheap_offset_excludes_block_prefix;; _ <<- xdev X_dense_link_private_layout;; wret (map fst l, true)
+          | _ => wfail 28
+          end
+        end
+      end
     end.
 
 Definition link_type (l : link_spec) : N := match ls_value l with LHard _ => 0 | LSoft _ => 1 | LExternal _ _ => 64 end.
+Definition link_target (l : link_spec) : N := match ls_value l with LHard a => a | _ => 0 end.
 
 (* ------------------------------------------------------------------ raw data of a dataset *)
 Definition dataset_data (cb : nat -> N -> bool -> option N -> W (list chunk_rec))
-  (lay : layout_spec) (esz : N) (dims : list N) (total : N) (filtered : bool) : W unit :=
+  (lay : layout4_spec) (esz : N) (dims : list N) (total : N) (filtered : bool) : W unit :=
   match lay with
-  | LyCompact data => wguard (blen data =? total)
+  | L4Virtual _ _ => wfail 51
+  | L4Chunked fl ldims idx a =>
+      (* version 4 chunk indexes: the single chunk and the implicit index are followed *)
+      let rank := length dims in
+      _ <<- wguardc 77 ((length ldims =? S rank)%nat && (lastN ldims =? esz));;
+      let cdims := removelast ldims in
+      let csize := prodN cdims * esz in
+      match idx with
+      | CISingle fz =>
+          _ <<- wguardc 78 (match fz with Some _ => filtered | None => true end);;
+          if a =? undefO then wret tt
+          else
+            let nbytes := match fz with Some (sz, _) => sz | None => csize end in
+            _ <<- wguardc 79 (0 <? nbytes);;
+            add_ext a (a + nbytes) K_chunk
+      | CIImplicit =>
+          _ <<- wguardc 80 (negb filtered);;
+          if a =? undefO then wret tt
+          else
+            let nchunks := prodN (map (fun p : N * N => (fst p + snd p - 1) / snd p) (combine dims cdims)) in
+            _ <<- wguardc 81 (0 <? nchunks * csize);;
+            add_ext a (a + nchunks * csize) K_chunk
+      | CIFixedArray _ => wfail 48
+      | CIExtArray _ => wfail 49
+      | CIBtree2 _ _ _ => wfail 50
+      end
+  | L4Plain lay =>
+  match lay with
+  | LyCompact data => wguardc 82 (blen data =? total)
   | LyContiguous a sz =>
-      _ <<- wguard (negb filtered);;
+      _ <<- wguardc 83 (negb filtered);;
       if a =? undefO then wret tt
-      else _ <<- wguard (sz =? total);; if 0 <? total then add_ext a (a + total) K_contiguous else wret tt
+      else _ <<- wguardc 84 (sz =? total);; if 0 <? total then add_ext a (a + total) K_contiguous else wret tt
   | LyChunked a ldims =>
       let rank := length dims in
       let nd := length ldims in
-      cdims <<- (if (nd =? S rank)%nat then _ <<- wguard (lastN ldims =? esz);; wret (removelast ldims)
+      cdims <<- (if (nd =? S rank)%nat then _ <<- wguardc 85 (lastN ldims =? esz);; wret (removelast ldims)
                  else if (nd =? rank)%nat then _ <<- sdev T_chunk_dims_no_elem_dim;; wret ldims
-                 else werr);;
-      _ <<- wguard (forallb (fun d => 0 <? d) cdims);;
+                 else wfail 86);;
+      _ <<- wguardc 87 (forallb (fun d => 0 <? d) cdims);;
       if a =? undefO then wret tt
       else if a =? 0 then sdev T_chunk_btree_addr_0
       else
@@ -537,13 +496,23 @@ Definition dataset_data (cb : nat -> N -> bool -> option N -> W (list chunk_rec)
         let csize := prodN cdims * esz in
         wforM (fun ch : chunk_rec =>
                  let '(nbytes, mask, offs, caddr) := ch in
-                 _ <<- wguard (if (nd =? S rank)%nat then lastN offs =? 0 else true);;
-                 _ <<- wguard (forall2b (fun o d => o mod d =? 0) (firstn rank offs) cdims);;
-                 _ <<- wguard (0 <? nbytes);;
+                 _ <<- wguardc 88 (if (nd =? S rank)%nat then lastN offs =? 0 else true);;
+                 _ <<- wguardc 89 (forall2b (fun o d => o mod d =? 0) (firstn rank offs) cdims);;
+                 _ <<- wguardc 90 (0 <? nbytes);;
                  _ <<- add_ext caddr (caddr + nbytes) K_chunk;;
                  (* the decoded size of a filtered chunk is not checked: deflate is not modelled *)
-                 if filtered then wret tt else wguard ((mask =? 0) && (nbytes =? csize))) chunks
+                 if filtered then wret tt else wguardc 91 ((mask =? 0) && (nbytes =? csize))) chunks
+  end
   end.
+
+(* the data layout message in any of its versions; versions 1 and 2 need the element size [esz] of the datatype *)
+Definition dec_layout_any (pad : bool) (rank : nat) (esz : N) (lyb : bytes) : outcome layout4_spec :=
+  match lyb with
+  | 3 :: _ => l <- spec_dec_layout (cO c) (cL c) pad lyb;; Ok (L4Plain l)
+  | 4 :: _ => spec_dec_layout4 (cO c) (cL c) pad lyb
+  | _ => l <- spec_dec_layout12 (cO c) rank esz pad lyb;; Ok (L4Plain l)
+  end.
+
 
 (* the low bits of the class bit field that carry byte order (bit 0), signedness (integers: bit 3), string padding (bits 0-3)
    and character set (bits 4-7), variable-length type (bits 0-3) / padding (4-7) / character set (8-11) *)
@@ -558,6 +527,7 @@ Definition dtype_bits (t : dtype) : N :=
   | _ => 0
   end.
 Definition layout_code (l : layout_spec) : N := match l with LyCompact _ => 0 | LyContiguous _ _ => 1 | LyChunked _ _ => 2 end.
+Definition layout4_code (l : layout4_spec) : N := match l with L4Plain l => layout_code l | L4Chunked _ _ _ _ => 2 | L4Virtual _ _ => 3 end.
 
 (* ------------------------------------------------------------------ one object *)
 Definition obj_body (fuel : nat) (rec : N -> bytes -> W unit) (addr : N) (path : bytes) : W unit :=
@@ -575,15 +545,20 @@ Definition obj_body (fuel : nat) (rec : N -> bytes -> W unit) (addr : N) (path :
          end;;
   _ <<- add_ref addr rc;;
   (* attributes: compact, then dense *)
-  cnames <<- wmapM (fun m => '(a, tg) <<- wlc 37 (spec_dec_attribute stol (cL c) pad (ms_data m));; _ <<- add_stags tg;; wret (as_name a))
+  cnames <<- wmapM (fun m => '(a, tg) <<- wlc 37 (dec_attribute pad (ms_data m));; _ <<- add_stags tg;; wret (as_name a))
                    (msgs_of 12 ms);;
-  _ <<- (if has_msg 15 ms then _ <<- sdev T_attrinfo_type_0x0f;; wguard (negb (has_msg 21 ms)) else wret tt);;
+  _ <<- (if has_msg 15 ms then _ <<- sdev T_attrinfo_type_0x0f;; wguardc 92 (negb (has_msg 21 ms)) else wret tt);;
   dnames <<- match (if has_msg 15 ms then first_of 15 ms else first_of 21 ms) with
              | Some d => dense_attrs d
              | None => wret []
              end;;
+  (* every use of a committed datatype (a shared datatype message, a compact attribute with a shared datatype) counts in the committed
+     datatype's reference count like a hard link *)
+  _ <<- wforM (fun m => if N.testbit (ms_flags m) 1 then a <<- wlc 46 (spec_dec_shared (cO c) (cL c) pad (ms_data m));; add_link a else wret tt)
+              (msgs_of 3 ms);;
+  _ <<- wforM (fun m => match attr_shared_addr (cO c) (cL c) (ms_data m) with Ok a => add_link a | _ => wret tt end) (msgs_of 12 ms);;
   let names := cnames ++ dnames in
-  _ <<- wguard (nodupb names);;
+  _ <<- wguardc 93 (nodupb names);;
   match first_of 17 ms with
   | Some d =>
       (* a symbol-table group *)
@@ -591,12 +566,13 @@ Definition obj_body (fuel : nat) (rec : N -> bytes -> W unit) (addr : N) (path :
       _ <<- add_stab addr bt hp;;
       seg <<- local_heap hp;;
       ents <<- gbtree seg fuel bt true None;;
-      _ <<- wguard (nodupb (map ge_name ents) && forallb (fun e => negb (length (ge_name e) =? 0)%nat) ents);;
+      _ <<- wguardc 94 (nodupb (map ge_name ents) && forallb (fun e => negb (length (ge_name e) =? 0)%nat) ents);;
       (* symbolic link entries (cache type 2): the link value is a string in the local heap *)
       _ <<- wlc 21 (omapM (fun e => if se_cache (ge_e e) =? 2 then heap_str seg (se_link_off (ge_e e)) else Ok []) ents);;
       _ <<- add_sum {| os_addr := addr; os_path := path; os_kind := 1; os_dims := []; os_dtclass := 0; os_dtsize := 0;
                        os_layout := 0; os_attrs := names; os_dtbits := 0; os_space := 0;
-                       os_links := map (fun e => (if se_cache (ge_e e) =? 2 then 1 else 0, ge_name e)) ents |};;
+                       os_links := map (fun e => (if se_cache (ge_e e) =? 2 then 1 else 0, ge_name e)) ents;
+                       os_ltargets := map (fun e => if se_cache (ge_e e) =? 2 then 0 else se_obj (ge_e e)) ents |};;
       wforM (fun e =>
                if se_cache (ge_e e) =? 2 then wret tt else
                let child := se_obj (ge_e e) in
@@ -606,38 +582,44 @@ Definition obj_body (fuel : nat) (rec : N -> bytes -> W unit) (addr : N) (path :
                  (* the cached B-tree / heap addresses equal the child's symbol table message *)
                  stab <<- wget (fun r => find (fun p => fst p =? child) (r_stab r));;
                  match stab with
-                 | Some (_, (b, h)) => wguard ((b =? se_btree (ge_e e)) && (h =? se_heap (ge_e e)))
-                 | None => werr
+                 | Some (_, (b, h)) => wguardc 95 ((b =? se_btree (ge_e e)) && (h =? se_heap (ge_e e)))
+                 | None => wfail 96
                  end
                else wret tt) ents
   | None =>
     if has_msg 2 ms then
       (* a new-style group: links in link messages (compact) or in a fractal heap (dense), never both *)
       clinks <<- wmapM (fun m => '(l, tg) <<- wlc 39 (spec_dec_link stol (cO c) pad (ms_data m));; _ <<- add_stags tg;; wret l) (msgs_of 6 ms);;
-      dlinks <<- match first_of 2 ms with Some d => dense_links pad d | None => wret [] end;;
-      _ <<- wguard (match clinks, dlinks with _ :: _, _ :: _ => false | _, _ => true end);;
+      '(dlinks, priv) <<- match first_of 2 ms with Some d => dense_links pad d | None => wret ([], false) end;;
+      _ <<- wguardc 97 (match clinks, dlinks with _ :: _, _ :: _ => false | _, _ => true end);;
       let links := clinks ++ dlinks in
-      _ <<- wguard (nodupb (map ls_name links));;
-      _ <<- wguard (negb (has_msg 8 ms) && negb (has_msg 3 ms) && negb (has_msg 1 ms));;
+      _ <<- wguardc 98 (nodupb (map ls_name links));;
+      _ <<- wguardc 99 (negb (has_msg 8 ms) && negb (has_msg 3 ms));;
+      (* a group has no dataspace; the writer's dense groups carry a scalar version 1 dataspace message (listed deviation) *)
+      _ <<- match first_of 1 ms with
+            | Some dsb => _ <<- xdev X_group_dataspace_msg;; ds <<- wlc 32 (spec_dec_dataspace (cL c) pad dsb);; wret tt
+            | None => wret tt
+            end;;
       _ <<- add_sum {| os_addr := addr; os_path := path; os_kind := 1; os_dims := []; os_dtclass := 0; os_dtsize := 0;
                        os_layout := 0; os_attrs := names; os_dtbits := 0; os_space := 0;
-                       os_links := map (fun l => (link_type l, ls_name l)) links |};;
+                       os_links := map (fun l => (link_type l, ls_name l)) links; os_ltargets := map link_target links |};;
       wforM (fun l => match ls_value l with
-                      | LHard child => _ <<- add_link child;; rec child (join_path path (ls_name l))
+                      | LHard child => _ <<- add_link child;; _ <<- (if priv then add_dlink child else wret tt);;
+                                       rec child (join_path path (ls_name l))
                       | _ => wret tt
                       end) links
     else if has_msg 6 ms then
       _ <<- sdev T_softlink_stored_as_object;;
       _ <<- wforM (fun m => '(_, tg) <<- wl (spec_dec_link stol (cO c) false (ms_data m));; add_stags tg) (msgs_of 6 ms);;
       add_sum {| os_addr := addr; os_path := path; os_kind := 3; os_dims := []; os_dtclass := 0; os_dtsize := 0;
-                 os_layout := 0; os_attrs := names; os_dtbits := 0; os_space := 0; os_links := [] |}
+                 os_layout := 0; os_attrs := names; os_dtbits := 0; os_space := 0; os_links := []; os_ltargets := [] |}
     else
-      match first_of 8 ms, first_of 3 ms, first_of 1 ms with
-      | Some lyb, Some dtb, Some dsb =>
-          '(dt, tg) <<- wlc 31 (spec_dec_datatype stol pad dtb);;
+      match first_of 8 ms, dtype_of_msgs pad ms, first_of 1 ms with
+      | Some lyb, Some dto, Some dsb =>
+          '(dt, tg) <<- wlc 31 dto;;
           _ <<- add_stags tg;;
           ds <<- wlc 32 (spec_dec_dataspace (cL c) pad dsb);;
-          lay <<- wlc 33 (spec_dec_layout (cO c) (cL c) pad lyb);;
+          lay <<- wlc 33 (dec_layout_any pad (length (dss_dims ds)) (dtype_size dt) lyb);;
           filtered <<- match first_of 11 ms with
                        | Some pb =>
                            '(fs, tg) <<- wlc 34 (spec_dec_pipeline stol pad pb);;
@@ -645,23 +627,26 @@ Definition obj_body (fuel : nat) (rec : N -> bytes -> W unit) (addr : N) (path :
                            wret true
                        | None => wret false
                        end;;
-          _ <<- (if negb (has_msg 5 ms) && negb (has_msg 4 ms) then sdev T_dataset_no_fillvalue_msg
+          (* the fill value message (0x0005) is required since library version 1.6; a dataset whose layout message has version 1 or 2
+             was written before it existed (or by 1.6.0-1.6.2 together with it) and may have neither fill value message *)
+          _ <<- (if negb (has_msg 5 ms) && negb (has_msg 4 ms) then
+                   if hd 0 lyb <? 3 then wret tt else sdev T_dataset_no_fillvalue_msg
                  else match first_of 5 ms with
                       | Some fv => v <<- wlc 36 (spec_dec_fillvalue pad fv);; wret tt
                       | None => wret tt
                       end);;
-          _ <<- wguardc 38 (negb filtered || (layout_code lay =? 2));;
+          _ <<- wguardc 38 (negb filtered || (layout4_code lay =? 2));;
           _ <<- add_sum {| os_addr := addr; os_path := path; os_kind := 2; os_dims := dss_dims ds; os_dtclass := dtype_class dt;
-                           os_dtsize := dtype_size dt; os_layout := layout_code lay; os_attrs := names;
-                           os_dtbits := dtype_bits dt; os_space := dss_type ds; os_links := [] |};;
+                           os_dtsize := dtype_size dt; os_layout := layout4_code lay; os_attrs := names;
+                           os_dtbits := dtype_bits dt; os_space := dss_type ds; os_links := []; os_ltargets := [] |};;
           dataset_data (fun nd => cbtree nd fuel) lay (dtype_size dt) (dss_dims ds) (nelem ds * dtype_size dt) filtered
-      | None, Some dtb, None =>
+      | None, Some dto, None =>
           (* a committed datatype *)
-          '(dt, tg) <<- wlc 31 (spec_dec_datatype stol pad dtb);;
+          '(dt, tg) <<- wlc 31 dto;;
           _ <<- add_stags tg;;
           add_sum {| os_addr := addr; os_path := path; os_kind := 4; os_dims := []; os_dtclass := dtype_class dt;
                      os_dtsize := dtype_size dt; os_layout := 0; os_attrs := names; os_dtbits := dtype_bits dt; os_space := 0;
-                     os_links := [] |}
+                     os_links := []; os_ltargets := [] |}
       | _, _, _ => wfail 30
       end
   end.
@@ -670,21 +655,25 @@ Fixpoint walk_obj (fuel : nat) : N -> bytes -> W unit :=
 
 (* ------------------------------------------------------------------ the cross-structure clauses after the traversal *)
 Definition finish (sb : superblock_spec) : W unit :=
-  (* versions 0, 1: the root symbol table entry caches the root group's B-tree and heap addresses *)
+  (* versions 0, 1: the root symbol table entry, when its cache type is 1, caches the root group's B-tree and heap addresses
+     (cache type 0, nothing cached, is what the reference library writes when it is not sure; 2 is for symbolic links) *)
   _ <<- match sbs_root_entry sb with
         | Some e =>
             stab <<- wget (fun r => find (fun p => fst p =? sbs_root sb) (r_stab r));;
             match stab with
-            | Some (_, (b, h)) => wguard ((se_cache e =? 1) && (b =? se_btree e) && (h =? se_heap e))
-            | None => werr
+            | Some (_, (b, h)) => wguardc 100 ((se_cache e =? 0) || ((se_cache e =? 1) && (b =? se_btree e) && (h =? se_heap e)))
+            | None => wguardc 101 (se_cache e =? 0)            (* a new-style root group: nothing to cache *)
             end
         | None => wret tt
         end;;
   (* reference counts against the hard links found *)
   refs <<- wget r_refs;;
   links <<- wget r_links;;
+  dlinks <<- wget r_dlinks;;
   _ <<- wforM (fun p : N * N => let lc := countN (fst p) links in
-                 if snd p =? lc then wret tt else xdev (if lc <? snd p then X_refcount_too_high else X_refcount_too_low)) refs;;
+                 if snd p =? lc then wret tt
+                 else if (0 <? countN (fst p) dlinks) && (snd p + countN (fst p) dlinks =? lc) then xdev X_refcount_ignores_dense_links
+                 else xdev (if lc <? snd p then X_refcount_too_high else X_refcount_too_low)) refs;;
   (* full-capacity regions of fixed-size nodes *)
   exts <<- wexts;;
   soft <<- wget r_soft;;
@@ -695,7 +684,7 @@ Definition finish (sb : superblock_spec) : W unit :=
                         (snd p)) soft;;
   (* the recorded end-of-file address *)
   if existsb (fun x : xext => sbs_eof sb <? snd (fst x)) exts then xdev X_sb_eof_stale
-  else wguard (sbs_eof sb <=? flen).
+  else wguardc 102 (sbs_eof sb <=? flen).
 
 End Ctx.
 
